@@ -108,6 +108,7 @@ type lkCase struct {
 	fault    *lkFault // lookups_fault.go: write faults, busy Get consumer, reply order
 	race     *lkRace  // lookups_stop.go: the stop lands inside the processing of a reply / while the consumer pauses
 	block    *lkBlock // lookups_block.go: the server has an IP blocklist and the network tells the lookup about blocked addresses
+	lim      *lkLim   // lookups_limiter.go: a SendLimiter that limits; nodes that do not acknowledge announce_peer / put
 }
 
 func (c *lkCase) name() string { return fmt.Sprintf("%s/%s", c.api, c.desc) }
@@ -445,6 +446,9 @@ func runLookupOnce(c *lkCase, rep int, report bool) (*lkState, lkResult) {
 	}
 	if c.block != nil {
 		return runLookupBlockOnce(c, rep, report) // lookups_block.go
+	}
+	if c.lim != nil {
+		return runLookupLimOnce(c, rep, report) // lookups_limiter.go
 	}
 	r := (&rng{s: c.sub}).sub(0)
 	st := &lkState{c: c, rep: rep, conn: newFakeConn(), queue: make(chan *lkQuery, 8192), gateMu: make(chan struct{}, 1),
@@ -1528,8 +1532,9 @@ func lookupsEngine(seed uint64, tier string, args []string) {
 		}
 	}
 	cases := lookupCases(seed, tier)
-	cases = append(cases, lookupStopCases(seed, tier, len(cases))...)  // lookups_stop.go
-	cases = append(cases, lookupBlockCases(seed, tier, len(cases))...) // lookups_block.go
+	cases = append(cases, lookupStopCases(seed, tier, len(cases))...)    // lookups_stop.go
+	cases = append(cases, lookupBlockCases(seed, tier, len(cases))...)   // lookups_block.go
+	cases = append(cases, lookupLimiterCases(seed, tier, len(cases))...) // lookups_limiter.go
 	if only >= 0 && only < len(cases) {
 		cases = cases[:only+1]
 		if from < only {
